@@ -6,6 +6,7 @@ import Noodles.Bgzf.Driver
 import Noodles.Bgzf.DriverC02
 import Noodles.Bgzf.DriverC03
 import Noodles.Cram.DriverC19
+import Noodles.Bcf.DriverC10
 namespace Noodles
 open Noodles.Wire
 
@@ -18,6 +19,7 @@ def dispatch (line : String) : String :=
   | "c03" :: rest => MtModel.handleC03 rest
   | "c11" :: rest => Fasta.handleC11 rest
   | "c19" :: rest => Cram.Index.handleC19 rest
+  | "c10" :: rest => Bcf.handleC10 rest
   | _ => "bad-suite"
 
 end Noodles
